@@ -72,7 +72,13 @@ func ZZ_C08_Will() {
 	// how the connection ends
 	suppressed := false
 	var dis *packets.Disconnect
-	switch zzrt.Choice(4) {
+	terminatedOnline := false
+	switch zzrt.Choice(5) {
+	case 4: // the administrator terminates the session while the client is online: the
+		// connection is closed and the session ends with it, whatever its expiry
+		srv.clientService.TerminateSession("c1")
+		terminatedOnline = true
+		zzrt.Cover("terminated-online")
 	case 0: // socket close / protocol error / keep-alive timeout / take-over: no DISCONNECT
 	case 1:
 		dis = &packets.Disconnect{Version: conn.Version, Code: codes.Success, Properties: &packets.Properties{}}
@@ -108,6 +114,9 @@ func ZZ_C08_Will() {
 	zzrt.Observe("E", E)
 	zzrt.Observe("D", D)
 	zzrt.Observe("suppressed", suppressed)
+	if terminatedOnline {
+		E = 0 // the session ended with the connection
+	}
 	delay := uint32(zzrt.IteInt(D < E, int(D), int(E)))
 	deadline := t1.Add(time.Duration(delay) * time.Second)
 	const (
